@@ -3,6 +3,7 @@ package gx
 import (
 	"encoding/json"
 	"fmt"
+	"strconv"
 	"strings"
 
 	"github.com/opsidian/parsley/ast"
@@ -242,6 +243,10 @@ type c07Monitor struct {
 	foundAt *frame
 	checks  int64
 	rehits  int64
+	// memoAnswers (enabled for grammars without left recursion and without RightTrim, where nothing may differ between
+	// two requests): what each memoized parser answered at each position of the current parse
+	memoIDs     map[int]bool
+	memoAnswers map[[2]int]string
 }
 
 type c07Finding struct {
@@ -258,6 +263,9 @@ func (m *c07Monitor) reset(blame bool) {
 	m.blame = blame
 	m.stack = m.stack[:0]
 	m.found, m.foundAt = nil, nil
+	if m.memoIDs != nil {
+		m.memoAnswers = map[[2]int]string{}
+	}
 }
 
 func renderFull(n parsley.Node) string { return impl.Render(n, 1) }
@@ -375,7 +383,21 @@ func (m *c07Monitor) onEnter(e *gram.Expr, _ parsley.Pos) {
 	}
 }
 
-func (m *c07Monitor) onReturn(e *gram.Expr, pos parsley.Pos, node parsley.Node, _ data.IntSet, _ parsley.Error) {
+func (m *c07Monitor) onReturn(e *gram.Expr, pos parsley.Pos, node parsley.Node, _ data.IntSet, perr parsley.Error) {
+	if m.memoIDs[e.ID] && m.found == nil {
+		// "asking a memoized parser again at the same position gives the same answer"
+		ans := renderFull(node)
+		if perr != nil {
+			ans += " with error " + strconv.Quote(perr.Error())
+		}
+		k := [2]int{e.ID, int(pos)}
+		if prev, asked := m.memoAnswers[k]; !asked {
+			m.memoAnswers[k] = ans
+		} else if prev != ans {
+			m.found = &c07Finding{mutator: e, field: "answer", relation: "memoized-parser-asked-again", now: ans,
+				object: &snap{full: prev, firstBy: e, firstPos: int(pos) - 1}}
+		}
+	}
 	var fr *frame
 	if m.blame {
 		fr = m.stack[len(m.stack)-1]
@@ -454,6 +476,19 @@ func c07Build(res *explore.Result, g *gram.Grammar, inputs [][]byte, verbose boo
 	b := impl.Build(g, impl.Options{})
 	b.Mon.BudgetCalls, b.Mon.BudgetRes = 20000, 20000
 	mon := &c07Monitor{}
+	if an := gram.Analyze(g); an.LeftRecFree {
+		ids := map[int]bool{}
+		rtrim := false
+		for _, e := range g.Nodes() {
+			rtrim = rtrim || e.K == gram.RTrim
+			if e.K == gram.Memo || (e.K == gram.Sh && e.Ref < len(g.SharedMemo) && g.SharedMemo[e.Ref]) {
+				ids[e.ID] = true
+			}
+		}
+		if !rtrim && len(ids) > 0 {
+			mon.memoIDs = ids
+		}
+	}
 	b.Mon.OnEnter = mon.onEnter
 	b.Mon.OnReturn = mon.onReturn
 	explosiveFrom := -1
